@@ -46,14 +46,16 @@ def scale_symmetric(A):
 
 class Scaling:
     def __init__(self, var_weights, cons_weights, obj_weight=0):
-        self.var_weights = var_weights
-        self.cons_weights = cons_weights
-
         assert var_weights.ndim == 1
         assert var_weights.dtype in [np.int64, np.int32, np.int16, np.int8]
 
         assert cons_weights.ndim == 1
         assert cons_weights.dtype in [np.int64, np.int32, np.int16, np.int8]
+
+        # exponents get combined (differences / sums of up to three weights):
+        # widen narrow integer types so that this arithmetic cannot wrap around
+        self.var_weights = var_weights.astype(np.int64)
+        self.cons_weights = cons_weights.astype(np.int64)
 
         self.obj_weight = obj_weight
 
